@@ -717,10 +717,11 @@ class MementoFunctionHashRule(HashRule):
     def did_change(self) -> bool:
         # Changes to the definition of a MementoFunctionType are more robust and detected using a
         # different mechanism (the global counter), but it is possible that a symbol
-        # pointing to a memento function is now pointing to something else, or even undefined
-        # so detect if that happened, else return `False`.
+        # pointing to a memento function is now pointing to something else (possibly another
+        # memento function that was defined earlier, which the global counter cannot tell), or
+        # even undefined, so detect if that happened, else return `False`.
         new_fn = self.resolver()
-        return not isinstance(new_fn, MementoFunctionType)
+        return new_fn is not self.memento_fn
 
     def __repr__(self):
         return f"MementoFunctionHashRule(key={repr(self.key)})"
